@@ -2048,9 +2048,13 @@ class IMAPClientCommand:
     def _p_string(self) -> str:
         """A string is either a 'quoted string' or a 'literal string'"""
         try:
-            return self._p_re(_quoted_re)[1:-1]
+            quoted = self._p_re(_quoted_re)[1:-1]
         except NoMatch:
             pass
+        else:
+            # Inside a quoted string `\"` and `\\` stand for `"` and `\`
+            #
+            return re.sub(r'\\(["\\])', r"\1", quoted)
 
         literal_length = int(self._p_re(_lit_ref_re, group=1))
 
